@@ -122,6 +122,13 @@ type EOD struct {
 	Rcpts    []Path `json:"rcpts"`
 }
 
+// Freeze stops recording (the run is over).
+func (h *History) Freeze() {
+	h.mu.Lock()
+	h.Frozen = true
+	h.mu.Unlock()
+}
+
 func (h *History) add(e Event) int {
 	h.mu.Lock()
 	defer h.mu.Unlock()
@@ -153,7 +160,6 @@ type Server struct {
 	// AuthFactory, if set, overrides the SASL server for a mechanism (C15's adversary).
 	AuthFactory func(mech string, sess *Session) SASLServer
 	Adversaries []*adversary
-	nconn       int
 }
 
 // New creates a server.
@@ -253,7 +259,6 @@ func (s *Session) rule(verb string) (Action, int, bool) {
 
 // Serve runs one session on the server end of a pipe; it is the body of a kernel task.
 func (srv *Server) Serve(p *sim.Pipe) {
-	srv.nconn++
 	s := &Session{srv: srv, ID: p.ID, pipe: p, raw: p.Server, conn: p.Server, counts: map[string]int{}}
 	defer func() {
 		if !s.closed {
